@@ -14,6 +14,8 @@ import (
 type jBe struct {
 	H, Q   []string
 	Static string
+	Gql    string
+	GqlVar int
 }
 type jJob struct {
 	Adapter    string
@@ -36,7 +38,7 @@ type jServed struct {
 func toJob(cs cfgSpec, reqs []reqSpec) jJob {
 	j := jJob{Adapter: cs.adapter, EpH: cs.epH, EpQ: cs.epQ, Method: cs.method, Concurrent: cs.concurrent, Sequential: cs.sequential}
 	for _, b := range cs.bes {
-		j.Bes = append(j.Bes, jBe{b.h, b.q, b.static})
+		j.Bes = append(j.Bes, jBe{b.h, b.q, b.static, b.gql, b.gqlVar})
 	}
 	for _, r := range reqs {
 		j.Reqs = append(j.Reqs, jReq{r.lines, r.query, r.host, r.body})
@@ -47,7 +49,7 @@ func toJob(cs cfgSpec, reqs []reqSpec) jJob {
 func fromJob(j jJob) (cfgSpec, []reqSpec) {
 	cs := cfgSpec{adapter: j.Adapter, epH: j.EpH, epQ: j.EpQ, method: j.Method, concurrent: j.Concurrent, sequential: j.Sequential}
 	for _, b := range j.Bes {
-		cs.bes = append(cs.bes, beSpec{b.H, b.Q, b.Static})
+		cs.bes = append(cs.bes, beSpec{b.H, b.Q, b.Static, b.Gql, b.GqlVar})
 	}
 	var reqs []reqSpec
 	for _, r := range j.Reqs {
@@ -69,7 +71,7 @@ func runChild(in io.Reader, stdout *os.File) {
 	for _, s := range serveAll(cs, reqs) {
 		js := jServed{Status: s.status}
 		for _, o := range s.obs {
-			js.Obs = append(js.Obs, concObs{o.rid, o.be, o.headers, o.rawQuery, o.query, o.parseErr})
+			js.Obs = append(js.Obs, concObs{o.rid, o.be, o.headers, o.rawQuery, o.query, o.parseErr, o.bodyLen})
 		}
 		res = append(res, js)
 	}
@@ -123,7 +125,7 @@ func runInChild(cs cfgSpec, reqs []reqSpec) []served {
 			if c.Query == nil {
 				c.Query = map[string][]string{}
 			}
-			out[i].obs = append(out[i].obs, observation{rid: c.Rid, be: c.Be, headers: c.Headers, rawQuery: c.RawQuery, query: c.Query, parseErr: c.ParseErr})
+			out[i].obs = append(out[i].obs, observation{rid: c.Rid, be: c.Be, headers: c.Headers, rawQuery: c.RawQuery, query: c.Query, parseErr: c.ParseErr, bodyLen: c.BodyLen})
 		}
 	}
 	return out
